@@ -325,6 +325,7 @@ def run_unit(unit_name, template_rel, variant):
     if res["status"] == "undecided" and res.get("undecided") and "could not process" in res["undecided"]:
         names = set(re.findall(r"no method named `(\w+)` found", res.get("stderr", "") + res["undecided"]))
         names |= set(re.findall(r"cannot find function `(\w+)` in this scope", res.get("stderr", "") + res["undecided"]))
+        names |= set(re.findall(r"no (?:associated )?function or (?:associated item|constant) named `(\w+)` found", res.get("stderr", "") + res["undecided"]))
         if names:
             res2 = run_unit_(unit_name, template_rel, variant, tuple(sorted(names)))
             if (res2.get("stats") or {}).get("R16"):
